@@ -679,6 +679,94 @@ fn check_louvres(h: &CaseH, c: &LouvreCase) -> Verdict {
     v
 }
 
+// ---- a window plane facing the sun of one of the design-day hours (directed search: acos of a dot product that
+// rounding may push beyond 1)
+
+#[derive(Clone, Debug, Serialize, Deserialize)]
+pub struct SunFacing {
+    pub zone: u8,
+    /// index of the hour row of the zone's July table
+    pub row: u8,
+    /// offsets of tilt and azimuth from the exact sun direction, in thousandths of a degree
+    pub dt: i8,
+    pub da: i8,
+}
+
+fn sun_facing_model(c: &SunFacing) -> Option<Model> {
+    let zone = model::zone(c.zone);
+    let lat = bemodel::climatedata::CLIMATEMETADATA.lock().ok()?.get(&zone)?.latitude;
+    let rows = bemodel::climatedata::JULYRADDATA.lock().ok()?.get(&zone)?.clone();
+    let r = rows.get(c.row as usize)?;
+    let nday = climate::nday_from_ymd(2001, r.month, r.day);
+    let decl = climate::solar::declination_from_nday(nday);
+    let ha = climate::solar::hourangle_from_tsol(r.hour);
+    let alt = climate::solar::altitude_sol_from_data(decl, ha, lat);
+    if !(alt > 0.5) {
+        return None;
+    }
+    let az = climate::solar::azimuth_sol_from_data(decl, ha, alt, lat);
+    // the plane whose normal points at the sun: tilt = 90 - altitude, azimuth = solar azimuth (S = 0, E +)
+    let tilt = ((90.0 - alt) * 1000.0).round() / 1000.0 + c.dt as f32 * 0.001;
+    let azimuth = (az * 1000.0).round() / 1000.0 + c.da as f32 * 0.001;
+    let mut m = Model::default();
+    m.meta.climate = zone;
+    let sid = model::uid(model::K_SPACE, 0, 5);
+    m.spaces.push(bemodel::Space { id: sid, name: "s".into(), height: 3.0, ..Default::default() });
+    let wid = model::uid(model::K_WALL, 0, 5);
+    let rect = |w: f32, hh: f32| vec![nalgebra::point![0.0, 0.0], nalgebra::point![w, 0.0], nalgebra::point![w, hh], nalgebra::point![0.0, hh]];
+    m.walls.push(bemodel::Wall {
+        id: wid,
+        name: "faldon".into(),
+        bounds: BoundaryType::EXTERIOR,
+        cons: bemodel::Uuid::nil(),
+        space: sid,
+        next_to: None,
+        geometry: bemodel::WallGeom { tilt, azimuth, position: Some(nalgebra::point![0.0, 0.0, 3.0]), polygon: rect(6.0, 4.0) },
+    });
+    m.windows.push(bemodel::Window {
+        id: model::uid(model::K_WIN, 0, 5),
+        name: "lucernario".into(),
+        cons: bemodel::Uuid::nil(),
+        wall: wid,
+        geometry: bemodel::WinGeom { position: Some(nalgebra::point![2.0, 1.0]), height: 1.0, width: 1.0, setback: 0.0 },
+    });
+    Some(m)
+}
+
+fn check_sun_facing(h: &CaseH, c: &SunFacing) -> Verdict {
+    let m = match sun_facing_model(c) {
+        Some(m) => m,
+        None => return Verdict::Pass,
+    };
+    let ind = match catch(|| m.energy_indicators()) {
+        Ok(i) => i,
+        Err(p) => return Verdict::from_panic("C14:indicators", &p),
+    };
+    if let Some(nf) = non_finite_in(&ind) {
+        return Verdict::fail("C14:sane-model:non-finite", format!("roof window facing the sun of design-day hour row {} in zone {} (tilt {}, azimuth {}): a reported number is not finite: ...{}", c.row, c.zone, m.walls[0].geometry.tilt, m.walls[0].geometry.azimuth, nf));
+    }
+    let f = ind.props.windows.values().next().and_then(|w| w.f_shobst);
+    crate::vensure!(f.map_or(false, |f| (0.0..=1.0).contains(&f)), "C14:sane-model:factor-out-of-range", "roof window facing the sun (zone {}, row {}): obstruction factor {:?}", c.zone, c.row, f);
+    h.nontrivial(fp(c));
+    h.class(if c.dt == 0 && c.da == 0 { "exactly-facing" } else { "near-facing" });
+    Verdict::Pass
+}
+
+fn sun_facing_cases(tier: crate::engine::Tier) -> Vec<SunFacing> {
+    let span: i8 = tier.pick(4, 12);
+    let mut v = vec![];
+    for zone in 0..32u8 {
+        for row in 0..16u8 {
+            for dt in -span..=span {
+                for da in -span..=span {
+                    v.push(SunFacing { zone, row, dt, da });
+                }
+            }
+        }
+    }
+    v
+}
+
 fn check_history(h: &CaseH, ops: &Vec<Op>) -> Verdict {
     let out = worker_call("C14.history", ops, Duration::from_secs(120));
     let has_window = ops.iter().any(|o| matches!(o, Op::AddWindow { .. }));
@@ -694,12 +782,14 @@ fn check_history(h: &CaseH, ops: &Vec<Op>) -> Verdict {
 
 pub fn run(args: &Args) -> ! {
     let ctx = Ctx::new("C14", "exploration", args);
-    ctx.rule("mutants: shipped models and generated models (closed and open plans) with 0-3 structural edits of the JSON tree (delete key / array item, empty / duplicate / truncate array, redirect an id to another, a fresh or the nil id, zero / negate a number, resize a numeric array to 0/1/23/25 values), trees that Model::from_json rejects are counted; histories: 1-25 editor operations from Model::default() with the indicators recomputed after every step; louvres: shipped and generated models with 2-90 equal slats (same extent along the wall, stacked at a fixed spacing: coinciding centres on the longest axis of the group, below, at and above the leaf size of the acceleration structure) in front of one of their windows. Every computation runs in a worker process (60 s watchdog): panic, hang or process death is a violation; after a panic the same process must still compute a known good model to its baseline; unedited closed models must give only finite numbers and an indicators JSON that loads back to an equal value. Non-trivial: at least one edit applied; history with a window.");
+    ctx.rule("mutants: shipped models and generated models (closed and open plans) with 0-3 structural edits of the JSON tree (delete key / array item, empty / duplicate / truncate array, redirect an id to another, a fresh or the nil id, zero / negate a number, resize a numeric array to 0/1/23/25 values), trees that Model::from_json rejects are counted; histories: 1-25 editor operations from Model::default() with the indicators recomputed after every step; louvres: shipped and generated models with 2-90 equal slats (same extent along the wall, stacked at a fixed spacing: coinciding centres on the longest axis of the group, below, at and above the leaf size of the acceleration structure) in front of one of their windows; sun_facing (exhaustive): for every zone and every hour of its July design day a roof window whose plane faces the sun of that hour exactly, and every tilt / azimuth offset of up to 0.004 (thorough 0.012) degrees in steps of 0.001: the indicators are finite and the obstruction factor lies in [0, 1]. Every computation runs in a worker process (60 s watchdog): panic, hang or process death is a violation; after a panic the same process must still compute a known good model to its baseline; unedited closed models must give only finite numbers and an indicators JSON that loads back to an equal value. Non-trivial: at least one edit applied; history with a window.");
     ctx.assume("finiteness is read from the Debug text of EnergyIndicators (every f32, also inside Option); 'closed' = generated closed plan or shipped model, unedited");
     ctx.replay_regressions(replay_one);
     ctx.run_prop("mutants", ctx.tier().pick(40_000, 1_000_000), mut_case, check_mutant);
     ctx.run_prop("histories", ctx.tier().pick(2_000, 30_000), || proptest::collection::vec(op(), 1..=25), check_history);
     ctx.run_prop("louvres", ctx.tier().pick(1_200, 40_000), louvre_case, check_louvres);
+    ctx.run_enum("sun_facing", &sun_facing_cases(ctx.tier()), true, check_sun_facing);
+    ctx.require_class("sun_facing/exactly-facing");
     ctx.require_class("louvres/slats/>30");
     ctx.require_class("louvres/outcome/ok");
     for c in ["mutants/outcome/ok", "mutants/outcome/rejected", "mutants/sane-model-checked", "histories/outcome/ok"] {
@@ -746,6 +836,7 @@ pub fn replay_one(ctx: &Ctx, doc: &ReplayDoc) {
         "mutants" => replay_case::<MutCase>(ctx, &doc.sub, &doc.case, check_mutant),
         "histories" => replay_case::<Vec<Op>>(ctx, &doc.sub, &doc.case, check_history),
         "louvres" => replay_case::<LouvreCase>(ctx, &doc.sub, &doc.case, check_louvres),
+        "sun_facing" => replay_case::<SunFacing>(ctx, &doc.sub, &doc.case, check_sun_facing),
         s => ctx.infra_error(format!("unknown sub {}", s)),
     }
 }
